@@ -334,11 +334,11 @@ theorem save_output_exact (cfg : Cfg) (hs : cfg.save = true) (st : Nat) (cks : L
   exact afterRoundTrip_save cfg st cks hs
 
 /-- A config / status for which `Client.roundTrip` leaves the transport body to the caller:
-not saved, auto-read off (or an informational status), and no result object that would make
-`parseResponseBody` read the body. -/
+not saved, auto-read off (or an informational status), and no result object (success or error
+target) that would make `parseResponseBody` read the body of a response of this status. -/
 def StreamCfg (cfg : Cfg) (st : Nat) : Prop :=
   cfg.save = false ∧ (cfg.clientDisable = true ∨ cfg.reqDisable = true ∨ st ≤ 199) ∧
-  ¬ (cfg.result = true ∧ 199 < st ∧ st < 300 ∧ st ≠ 204)
+  wantsBind cfg st = false
 
 /-- **Streaming without auto-read, any read sizes, then optionally `ToBytes`.** The caller
 gets the live transport body. For every segmentation and every read-size sequence: the
@@ -407,7 +407,7 @@ theorem observe_paths_agree (B : Bytes)
 /-! Non-vacuity: body "hello" delivered as "he","","llo"; auto-read, then Bytes, Read(2),
 ToBytes, Read(9), Read(1): the cache ops show "hello", the reads stream "he","llo", EOF. -/
 example :
-    ((afterRoundTrip ⟨false, false, false, false⟩ 200 (Body.transport [[104, 101], [], [108, 108, 111]] .eof)).run
+    ((afterRoundTrip ⟨false, false, false, false, false⟩ 200 (Body.transport [[104, 101], [], [108, 108, 111]] .eof)).run
         [.bytes, .read 2, .toBytes, .read 9, .read 1]).1 =
       [(.bytes, .cached (some [104, 101, 108, 108, 111])),
        (.read 2, .data [104, 101] .ok),
@@ -417,7 +417,7 @@ example :
 
 /-! Non-vacuity of the streaming hypotheses: DisableAutoReadResponse, reads 1,1 then ToBytes. -/
 example :
-    let r := afterRoundTrip ⟨false, true, false, false⟩ 200 (Body.transport [[104, 101], [108, 108, 111]] .eof)
+    let r := afterRoundTrip ⟨false, true, false, false, false⟩ 200 (Body.transport [[104, 101], [108, 108, 111]] .eof)
     (r.run [.read 1, .read 1, .toBytes, .bytes]).1 =
       [(.read 1, .data [104] .ok), (.read 1, .data [101] .ok),
        (.toBytes, .data [108, 108, 111] .ok), (.bytes, .cached (some [108, 108, 111]))] := by decide
